@@ -78,6 +78,7 @@ def run_property(pid, tier, seed):
     for config in configs:
         fx, cached, secs = F.load(config)
         ctx = Ctx(pid, fx, tier, config)
+        for n_ in getattr(fx, "anchor_notes", []): ctx.note(n_)
         mod.check(ctx)
         ctx.check_floors()
         all_obs += ctx.obs; notes += [f"[{config}] {n}" for n in ctx.notes]
